@@ -3,6 +3,8 @@
 import importlib
 import os
 import sys
+import warnings
+warnings.filterwarnings("ignore", category=SyntaxWarning)     # /repo's own docstrings contain '\S'
 sys.dont_write_bytecode = True
 os.environ["PYTHONDONTWRITEBYTECODE"] = "1"
 HERE = os.path.dirname(os.path.abspath(__file__))
